@@ -28,8 +28,18 @@ type keyArgs struct {
 	optNum   int64 // sunmd5: DisableSaltSeparator (0/1); argon2: version
 }
 
-// keyOf calls the scheme's Key and returns the key.
+// keyOf calls the scheme's Key and returns the key; a panic becomes a *panicErr (and is recorded).
 func keyOf(a keyArgs) (key []byte, err error) {
+	defer func() {
+		if r := recover(); r != nil {
+			key, err = nil, notePanic(fmt.Sprintf("Key of scheme tag %d", a.tag),
+				fmt.Sprintf("password=%s salt=%q nums=%v opts=%v prefix=%q optnum=%d", quoteShort(string(a.pw)), a.salt, a.nums, a.hasOpts, a.prefix, a.optNum), r)
+		}
+	}()
+	return keyOfRaw(a)
+}
+
+func keyOfRaw(a keyArgs) (key []byte, err error) {
 	n := func(i int) int64 {
 		if i < len(a.nums) {
 			return a.nums[i]
@@ -324,8 +334,8 @@ func corrC14(outDir string, seed uint64, tier string, replay string) *report {
 	type sch struct {
 		tag      int
 		alpha    string
-		okSalt   int   // a valid salt length
-		maxSalt  int   // lengths 0..maxSalt+3 are tried
+		okSalt   int     // a valid salt length
+		maxSalt  int     // lengths 0..maxSalt+3 are tried
 		nums     []int64 // cheap valid numeric arguments
 		pw       string
 		prefixes []string
@@ -345,7 +355,7 @@ func corrC14(outDir string, seed uint64, tier string, replay string) *report {
 	}
 	for _, s := range schs {
 		base := func() keyArgs {
-			a := keyArgs{tag: s.tag, pw: []byte(s.pw), salt: []byte(strings.Repeat(string(s.alpha+"a")[0:1], s.okSalt)), nums: append([]int64(nil), s.nums...)}
+			a := keyArgs{tag: s.tag, pw: []byte(s.pw), salt: []byte(strings.Repeat(string(s.alpha + "a")[0:1], s.okSalt)), nums: append([]int64(nil), s.nums...)}
 			if s.tag == 3 {
 				a.salt = nil
 			}
@@ -370,13 +380,13 @@ func corrC14(outDir string, seed uint64, tier string, replay string) *report {
 		}
 		// numeric arguments at the bounds
 		bounds := map[int][][]int64{
-			5: {{999}, {1000}, {999999999}, {1000000000}, {0}, {4294967295}},
-			6: {{999}, {1000}, {999999999}, {1000000000}, {0}, {4294967295}},
-			7: {{0}, {1}, {2}, {4294967294}},
-			8: {{0}, {1}, {4294963199}, {4294963200}, {4294967295}},
+			5:  {{999}, {1000}, {999999999}, {1000000000}, {0}, {4294967295}},
+			6:  {{999}, {1000}, {999999999}, {1000000000}, {0}, {4294967295}},
+			7:  {{0}, {1}, {2}, {4294967294}},
+			8:  {{0}, {1}, {4294963199}, {4294963200}, {4294967295}},
 			10: {{0}, {1}, {16777215}, {16777216}, {4294967295}},
-			2: {{3}, {4}, {5}, {31}, {32}, {0}, {255}},
-			4: {{7, 1, 1}, {8, 1, 1}, {8, 0, 1}, {8, 1, 0}, {0, 0, 0}, {9, 2, 2}, {4294967295, 1, 1}, {8, 4294967295, 1}, {16, 1, 255}},
+			2:  {{3}, {4}, {5}, {31}, {32}, {0}, {255}},
+			4:  {{7, 1, 1}, {8, 1, 1}, {8, 0, 1}, {8, 1, 0}, {0, 0, 0}, {9, 2, 2}, {4294967295, 1, 1}, {8, 4294967295, 1}, {16, 1, 255}},
 		}
 		for _, ns := range bounds[s.tag] {
 			a := base()
